@@ -650,10 +650,11 @@ def _mk_ustep_s(nrules, nargs, kwkeys):
             return {"a-new-leaf-template-of-Stepwise": c.And(rv.cls_is(PM + ":Partial"), Z.Val.id(result.t) >= ctx.alloc0, rv.ctor.t == stepwise_cls, Z.Val.b(rv.leaf.t)),
                     "holding-base-then-the-rules-registered-so-far-then-the-arguments": c.And(*[_b(f) for f in facts]) if ok else False,
                     "keywords-as-given": _b(_same_kw(ctx, _field(ctx, rv, "kwargs"), dict(kwargs))),
-                    "its-signature-is-checked-at-once": _b(len(checked) == 1 and z3.eq(z3.simplify(_tm(ctx, checked[0])), z3.simplify(result.t))),
+                    # (the template handed out is among the templates whose signature was checked - how many intermediate ones were checked too is not the property's business)
+                    "its-signature-is-checked-at-once": _b(any(z3.eq(z3.simplify(_tm(ctx, x)), z3.simplify(result.t)) for x in checked)),
                     "the-skeleton-is-not-modified": c.unchanged(self, "base", "rules", "_thresholds")}
 
-        raises = {"TypeError": lambda c, self, args, kwargs, exc: c.n_events() == 1}
+        raises = {"TypeError": lambda c, self, args, kwargs, exc: c.n_events() >= 1}       # only out of a signature check (how many templates were checked on the way is not the point)
     return shape
 
 
